@@ -482,9 +482,14 @@ class Run:
         """Run ``call``; apply the KeyError rule for the candidate result types."""
         qv = self.qv
         quads = [issubclass(c, (qv.utils.QUBOMatrix, qv.utils.QUSOMatrix)) for c in cands]
-        if not any(quads):
+        # The operator is executed by the left-most model operand (python calls its __op__ /
+        # __rop__; the right model's type is never a subclass overriding the reflected method),
+        # which builds the result as a copy of itself.  So only when THAT operand is a degree-2
+        # type can a KeyError be legitimate; with a general left operand (e.g. PUBOMatrix + QUBOMatrix)
+        # the sum / product is representable and must succeed.
+        if not quads or not quads[0]:
             return lib(call, what=opname)
-        all_quad = all(quads)
+        all_quad = True
         try:
             R = lib(call, what=opname, expect=(KeyError,))
         except KeyError as e:
@@ -1016,9 +1021,99 @@ def run_values(spec, rec):
         rec.case(spec, any(len(set(k)) >= 2 for k, _ in terms), sorted(classes))
 
 
+# ---------------------------------------------------------------------------
+# selfop: both operands are the SAME object (a + a, a *= a, b = a; a -= b, ...).
+# The tree generator always builds independent operands, so aliasing of the two
+# sides of an operator needs its own generator.
+
+SELF_OPS = ["add", "sub", "mul", "iadd", "isub", "imul", "ipow2", "pow2", "ipow3", "iadd_items", "imul_dict_of_self"]
+
+
+def selfop_spec():
+    def for_kind(kind):
+        spin = gen.is_spin(kind)
+        quad = gen.is_quad(kind)
+
+        def for_labels(labels):
+            return st.fixed_dictionaries({
+                "kind": st.just(kind), "labels": st.just(labels),
+                "op": st.sampled_from(SELF_OPS),
+                "terms": gen.poly_strategy(labels, 5, 2 if quad else 4, gen.MIXED_COEFS, repeats=True,
+                                           min_terms=1, quad=quad, spin=spin),
+            })
+        # degree-2 types: two labels only, so that every term-wise product stays within two labels
+        return gen.label_pool(gen.is_matrix(kind), 1, 2 if quad else 4).flatmap(for_labels)
+    return st.sampled_from(gen.ALL_KINDS).flatmap(for_kind)
+
+
+def run_selfop(spec, rec):
+    import qubovert as qv
+    kind, op = spec["kind"], spec["op"]
+    spin = gen.is_spin(kind)
+    a = lib(gen.build, qv, kind, [[tuple(k), v] for k, v in spec["terms"]], what="build")
+    before = dict(a)
+    order = list(spec["labels"])
+    ta = ref.table(before, order, spin)
+    snap = gen.snapshot(a)
+    inplace = op.startswith("i")
+
+    def f():
+        x = a
+        if op == "add":
+            return a + a
+        if op == "sub":
+            return a - a
+        if op == "mul":
+            return a * a
+        if op == "pow2":
+            return a ** 2
+        if op == "iadd":
+            x += a
+        elif op == "isub":
+            x -= a
+        elif op == "imul":
+            x *= a
+        elif op == "ipow2":
+            x **= 2
+        elif op == "ipow3":
+            x **= 3
+        elif op == "iadd_items":
+            x += a.items() if False else a      # same object through a second name
+        elif op == "imul_dict_of_self":
+            x *= a
+            x *= 1
+        return x
+    R = lib(f, what="selfop_" + op)
+    want = {"add": 2 * ta, "iadd": 2 * ta, "iadd_items": 2 * ta, "sub": 0 * ta, "isub": 0 * ta,
+            "mul": ta * ta, "imul": ta * ta, "pow2": ta * ta, "ipow2": ta * ta, "ipow3": ta * ta * ta,
+            "imul_dict_of_self": ta * ta}[op]
+    got = ref.table(dict(R), order, spin)
+    if not np.array_equal(got, want):
+        i = int(np.nonzero(got != want)[0][0])
+        raise Violation("selfop_value/%s" % op,
+                        "%s with both operands the same %s object: at %r result %r, expected %r; a=%r result=%r" %
+                        (op, kind, ref.assignment(order, i, spin), got[i], want[i], before, dict(R)))
+    for k, v in dict.items(R):
+        if not v:
+            raise Violation("selfop_zero_stored/%s" % op, "%r" % (dict(R),))
+    if type(R) is not type(a):
+        raise Violation("selfop_type/%s" % op, "%s -> %s" % (kind, type(R).__name__))
+    if inplace:
+        if R is not a:
+            raise Violation("selfop_inplace_new_object/%s" % op, "")
+    else:
+        if R is a:
+            raise Violation("selfop_returns_operand/%s" % op, "")
+        if gen.snapshot(a) != snap:
+            raise Violation("selfop_operand_changed/%s" % op, "%r -> %r" % (snap, gen.snapshot(a)))
+    rec.case(spec, op in ("mul", "imul", "pow2", "ipow2", "ipow3", "imul_dict_of_self") and len(before) >= 2,
+             ["selfop=" + op, "kind=" + kind])
+
+
 def subchecks(tier):
     return [
         Sub("tree", tree_spec(), run_tree, quick=5500, thorough=150000),
         Sub("rewrite", rewrite_spec(), run_rewrite, quick=1800, thorough=40000),
         Sub("values", values_spec(), run_values, quick=2500, thorough=50000),
+        Sub("selfop", selfop_spec(), run_selfop, quick=2400, thorough=40000),
     ]
